@@ -12,7 +12,7 @@ ASSUMPTIONS = ["coordinates k/4 in [-16,16], sizes k/4 in (0,16] (intersection);
 OUTSIDE = ["rotated boxes in general position: sin/cos have no bit-precise semantics in CBMC or z3, so invariance under "
            "rigid motion and the clip area for arbitrary angles are not claimed",
            "non-grid coordinates"]
-KANI_MODULES = ["c08_geometry"]
+KANI_MODULES = ["c08_geometry", "c19_bbox"]
 B = "similari::utils::bbox::"
 KANI = [
     KH("c08_geometry::c08_bbox_intersection_grid", "quick", 1500,
@@ -27,6 +27,9 @@ KANI = [
     KH("c08_geometry::c08_too_far_sound_grid", "quick", 1800,
        "too_far never rejects overlapping axis-aligned boxes; symmetric; false for a box with itself",
        "left/top k/4 in [-4,4], width/height k/2 in (0,4], exact aspects", [B + "Universal2DBox::too_far", B + "Universal2DBox::get_radius"]),
+    KH("c19_bbox::c19_vertices_far_small", "quick", 900,
+       "polygon vertices of tiny boxes far from the origin are exact in f64 (the intersection of such boxes is computed from them)",
+       "xc = 8192 + k/4, yc = -4096 + k/4, height m/2048 (m 1..8), aspect 1..4", [B + "Polygon::from(&Universal2DBox)"]),
 ]
 
 # ===================================================================== engine M: structure of the rotated-box pipeline
@@ -195,6 +198,32 @@ fn replay() {
         let (va, vb) = (VisualObservationAttributes::new(0.5, ua.clone()), VisualObservationAttributes::new(0.5, ub.clone()));
         assert_eq!(VisualObservationAttributes::calculate_metric_object(&Some(&va), &Some(&vb)).is_none(), exact == 0.0);
     } } }
+    // tiny boxes far from the origin: vertices need f64 (centre 8192.25 +- multiples of 2^-12 is not representable in f32)
+    {
+        let u = 1.0f32 / 2048.0;
+        let a = Universal2DBox::new(8192.25, -4096.5, None, 1.0, 3.0 * u);
+        let b = Universal2DBox::new(8192.25 + 2.0 * u, -4096.5, None, 1.0, 3.0 * u);   // shifted by 2u = 2^-10 (one f32 ulp here)
+        let want = (1.0f64 / 2048.0) * (3.0f64 / 2048.0);
+        let got = Universal2DBox::intersection(&a, &b);
+        assert!((got - want).abs() <= 1e-12, "tiny boxes far from the origin: intersection {} vs {}", got, want);
+        let whole = Universal2DBox::intersection(&a, &a);
+        assert!((whole - 9.0 / (2048.0f64 * 2048.0)).abs() <= 1e-12, "a tiny box far from the origin intersected with itself: {}", whole);
+    }
+    // vertex cache: regenerated from the current fields, never handed out stale
+    for (dx, turn) in [(0.0f32, 0.9f32), (5.0, 0.0), (3.0, 1.3)] {
+        let mut b = Universal2DBox::new(1.0, 2.0, Some(0.4), 2.0, 3.0);
+        b.gen_vertices();
+        b.xc += dx;
+        b.rotate_mut(0.4 + turn);
+        let fresh = Universal2DBox::new(1.0 + dx, 2.0, Some(0.4 + turn), 2.0, 3.0);
+        assert_eq!(b.get_vertices(), fresh.get_vertices(), "get_vertices describes the box as it is now (moved by {}, turned by {})", dx, turn);
+        b.gen_vertices();
+        assert_eq!(b.get_cached_vertices().as_ref().unwrap(), &fresh.get_vertices(), "gen_vertices replaces a stale cache (moved by {}, turned by {})", dx, turn);
+        let other = Universal2DBox::new(2.0, 2.0, Some(0.1), 1.0, 2.0);
+        let a1 = similari::utils::clipping::sutherland_hodgman_clip(&b.get_vertices(), &other.get_vertices());
+        let a2 = b.clone().sutherland_hodgman_clip(other.clone());
+        assert_eq!(a1, a2, "the clip method uses the current polygons");
+    }
     // both boxes turned together about the origin: area and IoU are unchanged (rigid-motion invariance), also for EQUAL angles
     for a in &rects { for b in &rects { for theta in [0.3f32, 0.6, 1.0, std::f32::consts::FRAC_PI_4, 2.5, -0.7] {
         let turn = |r: &(f32, f32, f32, f32)| {
@@ -228,4 +257,77 @@ MIR = [
        ["similari::utils::bbox::Universal2DBox::calculate_metric_object"], replay=_replay_geo),
     MQ("c08_iou_wrapper_visual", "quick", _mk_iou_wrapper('visual'), "VisualObservationAttributes IoU: None iff intersection 0 or a box missing, else I/(A1+A2-I)", "same",
        ["similari::trackers::visual_sort::observation_attributes::VisualObservationAttributes::calculate_metric_object"], replay=_replay_geo),
+]
+
+
+# ---- vertex generation: from the CURRENT fields, whatever the cache holds (engine M; sin / cos uninterpreted but functional)
+def q_polygon_from(vm, P):
+    fn = [f for (key, lst) in P.impl_methods.items() for (f, i) in lst if key[0] == 'Polygon' and key[1] == 'From' and key[2] == 'from' and 'Universal2DBox' in (i.get('trait_full') or '')][0]
+    b, bi = _sym_ubox(vm, P, 'b')
+    r = vm.exec_fn(fn, [Ref(Cell(b, 'b'))], {})
+    vm.notes.update(kind='polygon_from')
+    # geo::Polygon::new(LineString(vec![..4 coords..]), vec![]) - the model keeps the exterior as given
+    coords = vm.notes.get('polygon_new')
+    vm.check(BOOL(coords is not None and len(coords) == 4), "the polygon is built from four vertices (never copied from a cache)")
+    if not coords or len(coords) != 4:
+        return
+    ang = f_to(bi['ang'], F64) if bi['has_angle'] else z3.FPVal(0.0, F64)
+    from models import _uf
+    c, s = _uf('cos', F64)(fp_plain(ang)), _uf('sin', F64)(fp_plain(ang))
+    h, a = f_to(bi['h'], F64), f_to(bi['asp'], F64)
+    hw = f_div(f_mul(h, a), z3.FPVal(2.0, F64))
+    hh = f_div(h, z3.FPVal(2.0, F64))
+    nhw = f_un('neg', hw)
+    r1x = f_sub(f_mul(nhw, c), f_mul(hh, s))
+    r1y = f_add(f_mul(nhw, s), f_mul(hh, c))
+    r2x = f_sub(f_mul(hw, c), f_mul(hh, s))
+    r2y = f_add(f_mul(hw, s), f_mul(hh, c))
+    x, y = f_to(bi['xc'], F64), f_to(bi['yc'], F64)
+    want = [(f_add(x, r1x), f_add(y, r1y)), (f_add(x, r2x), f_add(y, r2y)), (f_sub(x, r1x), f_sub(y, r1y)), (f_sub(x, r2x), f_sub(y, r2y))]
+    for k, (co, (wx, wy)) in enumerate(zip(coords, want)):
+        gx, gy = co.fields[0], co.fields[1]
+        vm.check(z3.And(z3.fpToIEEEBV(fp_plain(gx)) == z3.fpToIEEEBV(fp_plain(wx)), z3.fpToIEEEBV(fp_plain(gy)) == z3.fpToIEEEBV(fp_plain(wy))),
+                 "vertex %d = centre +- the half-size vector rotated by the box angle (computed in f64 from the current fields)" % k)
+
+
+def q_gen_vertices(vm, P):
+    fn = P.impl_methods[('Universal2DBox', None, 'gen_vertices')][0][0]
+    b, bi = _sym_ubox(vm, P, 'b')
+    cell = Cell(b, 'b')
+    vm.exec_fn(fn, [Ref(cell)], {})
+    cache = fld(P, cell.v, 'Universal2DBox', '_vertex_cache')
+    made = vm.notes.get('poly_from', [])
+    if bi['has_angle']:
+        vm.check(BOOL(cache.variant == 1 and isinstance(cache.fields[0], Opaque) and cache.fields[0].tag[0] == 'poly' and len(made) == 1 and cache.fields[0].tag[1] == made[0]),
+                 "gen_vertices stores the polygon of the box as it is NOW (a cache left from before a change is replaced)")
+        want = (repr(fp_plain(bi['xc'])), repr(fp_plain(bi['yc'])), repr(fp_plain(bi['ang'])), repr(bi['asp']), repr(bi['h']))
+        vm.check(BOOL(bool(made) and made[0] == want), "... generated from the current centre / angle / aspect / height")
+    for n in ('xc', 'yc', 'angle', 'aspect', 'height', 'confidence'):
+        i = P.decls.field_index('Universal2DBox', n)
+        vm.check(BOOL(cell.v.fields[i] is b.fields[i]), "gen_vertices changes nothing but the cache")
+
+
+def _poly_calls(P):
+    base = _geo_calls(P)
+    base = {k: v for k, v in base.items() if k != ('Polygon', 'From', 'from')}
+
+    def polygon_new(vm, cal, args):
+        ext = args[0]
+        while isinstance(ext, Ref):
+            ext = vm.deref(ext)
+        pts = ext.fields[0] if isinstance(ext, Adt) else ext
+        while isinstance(pts, Ref):
+            pts = vm.deref(pts)
+        vm.notes['polygon_new'] = list(pts.items)
+        return Opaque('Polygon', ('new', id(pts)))
+    base[('Polygon', None, 'new')] = polygon_new
+    return base
+
+
+MIR += [
+    MQ("c08_polygon_from", "quick", q_polygon_from, "Polygon::from(&box): four vertices = centre +- half-size vector rotated by the angle (None = 0), computed in f64 from the current fields; a stale cache is never returned",
+       "free centre, angle None or from {0,.5,1,2.5,-.75,7}, sizes from exact grids, vertex cache present or absent; sin / cos uninterpreted but functional",
+       ["similari::utils::bbox::From<&Universal2DBox> for Polygon<f64>"], spec_calls=_poly_calls, replay=_replay_geo),
+    MQ("c08_gen_vertices", "quick", q_gen_vertices, "gen_vertices regenerates the cache from the current fields (replacing a stale one) and changes nothing else",
+       "same box family, cache present or absent", [U + "gen_vertices"], spec_calls=_geo_calls, replay=_replay_geo),
 ]
